@@ -448,3 +448,55 @@ pub fn decode_extreme() -> Report {
     } } } }
     r("decode_extreme", bound, cases, None)
 }
+
+// ------------------------------------------------------------------ C02 (document-level reading)
+/// kind dispatch, lenient conversions, debug id precedence, sourceRoot joining, optional keys in any combination
+pub fn decode_document() -> Report {
+    use sourcemap::decode_slice;
+    let bound = "documents with every combination of 9 optional keys (sections / x_facebook_sources / file string|number / names with numbers and null / null sources / sourceRoot / debug_id / debugId / junk header), keys in two orders";
+    let mut cases = 0u64;
+    let id1 = "00000000-0000-0000-0000-000000000001"; let id2 = "00000000-0000-0000-0000-000000000002";
+    for mask in 0u32..(1 << 9) { for reversed in [false, true] {
+        cases += 1;
+        let has = |b: u32| mask >> b & 1 == 1;
+        let mut keys: Vec<String> = vec![r#""version":3"#.into()];
+        keys.push(if has(0) { r#""sources":["a.js",null,"/abs.js","http://h/x.js"]"#.into() } else { r#""sources":["a.js","b.js","/abs.js","http://h/x.js"]"#.into() });
+        keys.push(if has(1) { r#""names":["n0",7,null,true]"#.into() } else { r#""names":["n0","n1","n2","n3"]"#.into() });
+        keys.push(r#""mappings":"AAAAA,CCAAC;;CCAAC,EADA""#.into());
+        if has(2) { keys.push(r#""file":"out.js""#.into()); } else if has(3) { keys.push(r#""file":12"#.into()); }
+        if has(4) { keys.push(r#""sourceRoot":"root/""#.into()); }
+        if has(5) { keys.push(format!(r#""debug_id":"{id1}""#)); }
+        if has(6) { keys.push(format!(r#""debugId":"{id2}""#)); }
+        if has(7) { keys.push(r#""x_facebook_sources":[null,null,null,null]"#.into()); }
+        let sections = has(8) && !has(7) && !has(4) && !has(5);
+        if sections { keys.push(r#""sections":[{"offset":{"line":0,"column":0},"map":{"version":3,"sources":[],"names":[],"mappings":""}}]"#.into()); }
+        if reversed { keys.reverse(); }
+        let mut doc = format!("{{{}}}", keys.join(","));
+        if mask % 3 == 0 { doc = format!(")]}}'\n{doc}"); }
+        let dm = match guarded(|| decode_slice(doc.as_bytes())) { Ok(Ok(m)) => m, o => return r("decode_document", bound, cases, Some(format!("document {doc} does not decode: {:?}", o.map(|x| x.map(|_| ()).map_err(|e| e.to_string()))))) };
+        let sm: &SourceMap = match (&dm, sections, has(7)) {
+            (DecodedMap::Index(_), true, _) => continue,
+            (DecodedMap::Hermes(h), false, true) => h,
+            (DecodedMap::Regular(m), false, false) => m,
+            _ => return r("decode_document", bound, cases, Some(format!("document {doc}: decoded as the wrong kind (sections={sections}, x_facebook_sources={})", has(7)))),
+        };
+        let root = if has(4) { Some("root") } else { None };
+        let raw = [if true { "a.js" } else { "" }, if has(0) { "" } else { "b.js" }, "/abs.js", "http://h/x.js"];
+        for (i, rs) in raw.iter().enumerate() {
+            let want = match root { Some(rt) if !(rs.starts_with('/') || rs.starts_with("http:") || rs.starts_with("https:")) || rs.is_empty() => format!("{rt}/{rs}"), _ => rs.to_string() };
+            if sm.get_source(i as u32) != Some(&want) { return r("decode_document", bound, cases, Some(format!("document {doc}: source {i} reads {:?}, expected {want:?}", sm.get_source(i as u32)))); }
+        }
+        let wn = if has(1) { ["n0", "7", "", ""] } else { ["n0", "n1", "n2", "n3"] };
+        for (i, n) in wn.iter().enumerate() { if sm.get_name(i as u32) != Some(n) { return r("decode_document", bound, cases, Some(format!("document {doc}: name {i} reads {:?}, expected {n:?}", sm.get_name(i as u32)))); } }
+        let wf = if has(2) { Some("out.js") } else if has(3) { Some("<invalid>") } else { None };
+        if sm.get_file() != wf { return r("decode_document", bound, cases, Some(format!("document {doc}: file {:?}, expected {wf:?}", sm.get_file()))); }
+        let wd = if has(5) { Some(id1) } else if has(6) { Some(id2) } else { None };
+        if sm.get_debug_id().map(|d| d.to_string()) != wd.map(|s| s.to_string()) { return r("decode_document", bound, cases, Some(format!("document {doc}: debug id {:?}, expected {wd:?}", sm.get_debug_id()))); }
+        let toks: Vec<(u32, u32, u32, u32, u32, Option<&str>)> = sm.tokens().map(|t| (t.get_dst_line(), t.get_dst_col(), t.get_src_id(), t.get_src_line(), t.get_src_col(), t.get_name())).collect();
+        let wt = vec![(0u32, 0u32, 0u32, 0u32, 0u32, Some(wn[0])), (0, 1, 1, 0, 0, Some(wn[1])), (2, 1, 2, 0, 0, Some(wn[2])), (2, 3, 2, 0, 0, None)];
+        let wt: Vec<(u32, u32, u32, u32, u32, Option<&str>)> = wt.into_iter().map(|t| (t.0, t.1, t.2, t.3, t.4, t.5)).collect();
+        let got_short: Vec<_> = toks.iter().map(|t| (t.0, t.1, t.2)).collect(); let want_short: Vec<_> = wt.iter().map(|t| (t.0, t.1, t.2)).collect();
+        if got_short != want_short { return r("decode_document", bound, cases, Some(format!("document {doc}: tokens (line, col, source) {got_short:?}, expected {want_short:?}"))); }
+    } }
+    r("decode_document", bound, cases, None)
+}
